@@ -309,6 +309,7 @@ func VerifC05_TopicCloseWithBusyPump() {
 	n := verifShellNSQD(o)
 	verifrt.StubNative("(*github.com/nsqio/nsq/nsqd.NSQD).Notify", verifNotifyNop)
 	verifrt.Preemptions(1)
+	verifrt.FreeRun() // natively the pump and the close race freely (the imposed schedule can park the pump for good)
 	var t *Topic
 	var ch *Channel
 	var msgs []*Message
